@@ -79,10 +79,16 @@ lock = threading.Lock()
 outf = open(out_path, 'a')
 
 def sh(cmd, env=None, timeout=900, cwd=None):
+    # own process group: a mutant can make a test spin for ever, the whole group is killed on timeout
+    import signal
+    p = subprocess.Popen(cmd, shell=True, stdout=subprocess.PIPE, stderr=subprocess.STDOUT, text=True, env=env, cwd=cwd, preexec_fn=os.setsid)
     try:
-        p = subprocess.run(cmd, shell=True, capture_output=True, text=True, env=env, timeout=timeout, cwd=cwd)
-        return p.returncode, p.stdout + p.stderr
+        out, _ = p.communicate(timeout=timeout)
+        return p.returncode, out
     except subprocess.TimeoutExpired:
+        try: os.killpg(p.pid, signal.SIGKILL)
+        except ProcessLookupError: pass
+        p.communicate()
         return 124, 'timeout'
 
 def worker(w):
@@ -100,7 +106,7 @@ def worker(w):
         lines = orig.split('\n'); lines[m['line'] - 1] = m['newline']
         open(path, 'w').write('\n'.join(lines))
         res = dict(m); res.pop('newline')
-        rc, out = sh('cargo test --workspace --offline --lib --no-fail-fast 2>&1 | tail -5', env=env, cwd=repo, timeout=900)
+        rc, out = sh('cargo test --workspace --offline --lib --no-fail-fast 2>&1 | tail -5', env=env, cwd=repo, timeout=240)
         if 'test result: ok' not in out or 'FAILED' in out or 'error' in out:
             res['verdict'] = 'killed-by-tests-or-compile'
         else:
